@@ -283,6 +283,30 @@ func rtCheck(c RTCase, r *kit.R) {
 	if rr.err != io.EOF {
 		r.Failf("C34:read-after-timeout:end", "case %+v: the stream arrived completely but Read ended with %v instead of io.EOF after the peer's close_notify", c, rr.err)
 	}
+	// the peer has closed its sending direction (close_notify received, transport still open):
+	// every further Read, from any goroutine, has to return at once - "never deadlocks once the
+	// peer closes" - and to report the end of the stream again
+	type again struct {
+		n   int
+		err error
+	}
+	adone := make(chan again, 2)
+	for i := 0; i < 2; i++ {
+		go func() {
+			n, err := reader.Read(make([]byte, 16))
+			adone <- again{n, err}
+		}()
+	}
+	for i := 0; i < 2; i++ {
+		select {
+		case a := <-adone:
+			if a.n != 0 || a.err != io.EOF {
+				r.Failf("C34:read-after-eof", "case %+v: a Read after the stream had ended with io.EOF returned (%d, %v)", c, a.n, a.err)
+			}
+		case <-time.After(limit):
+			r.Failf("C34:read-after-eof:hang", "case %+v: a Read issued after the peer's close_notify had been delivered (io.EOF) did not return within %v although the peer has closed its sending direction", c, limit)
+		}
+	}
 	if cut.atPos["timeout-inside-record-header"]+cut.atPos["timeout-inside-record-body"] > 0 {
 		r.NonTrivial()
 	}
@@ -312,7 +336,7 @@ func rtGen(t *rapid.T) RTCase {
 
 func TestPropReadTimeout(t *testing.T) {
 	kit.Run(t, kit.Spec[RTCase]{ID: "C34", Name: "read-timeout", Gen: rtGen, Check: rtCheck, Quick: 500, Thorough: 5000,
-		Rule: "a completed handshake (TLS 1.0-1.3; ECDSA, RSA, Ed25519 identities; tickets on/off, so that TLS 1.3 clients also receive NewSessionTicket records in the stream; dynamic record sizing on/off); one side writes 1-6 messages of 1..40000 bytes and CloseWrite, the other side reads with a 1..20000 byte buffer through a transport that reports a read timeout (os.ErrDeadlineExceeded, as net.Conn does) at 1-6 generated positions of the inbound record stream: at a record boundary, inside the 5-byte header, inside the body, at the last bytes of a record; after every timeout the reader clears its deadline and reads on. The bytes received must be exactly the bytes sent, ending in io.EOF, and every transport timeout must surface as exactly one Read timeout. Non-trivial: at least one timeout fired inside a record (header or body); distinct by case hash",
+		Rule: "a completed handshake (TLS 1.0-1.3; ECDSA, RSA, Ed25519 identities; tickets on/off, so that TLS 1.3 clients also receive NewSessionTicket records in the stream; dynamic record sizing on/off); one side writes 1-6 messages of 1..40000 bytes and CloseWrite, the other side reads with a 1..20000 byte buffer through a transport that reports a read timeout (os.ErrDeadlineExceeded, as net.Conn does) at 1-6 generated positions of the inbound record stream: at a record boundary, inside the 5-byte header, inside the body, at the last bytes of a record; after every timeout the reader clears its deadline and reads on. The bytes received must be exactly the bytes sent, ending in io.EOF, every transport timeout must surface as exactly one Read timeout, and two further Reads issued after the end must return io.EOF at once (the transport stays open). Non-trivial: at least one timeout fired inside a record (header or body); distinct by case hash",
 		Assumptions: []string{
 			"a read deadline may expire at any point relative to the arrival of the bytes, so a timeout error from the transport between any two bytes is a behaviour of net.Conn every application can meet; the transport wrapper decides the positions instead of a clock",
 			"only Write documents that a timeout corrupts the connection (Conn.SetWriteDeadline); a timed-out Read is followed by further Reads",
